@@ -23,7 +23,7 @@ for id in "$@"; do
   export CARGO_TARGET_DIR=$T
   # build and take a private copy of the binary under a lock: other callers share the target dir
   ( flock 9; rm -f $CARGO_TARGET_DIR/verif/$pkg $B/$pkg.bin; cargo build --offline --profile verif -p $pkg $feat 2>&1 | grep -E "^error" -A 6 | head -20
-    cp $CARGO_TARGET_DIR/verif/$pkg $B/$pkg.bin ) 9>/verif/harness/.seedrun.lock
+    cp $CARGO_TARGET_DIR/verif/$pkg $B/$pkg.bin ) 9>$T.lock
   [ -x $B/$pkg.bin ] || { echo "$id BUILD FAILED (no verdict)"; continue; }
   [ $id = C03L ] && echo '{"tier":"'${SEED_TIER:-quick}'","coverage":{},"assumptions":[],"wall_s":0,"violations":0}' > $B/out/evidence/C03.json
   rc=0; out=$($B/$pkg.bin $prop ${SEED_TIER:-quick} 2>&1) || rc=$?
